@@ -65,6 +65,28 @@ def stepC07 (fields : List String) : Option String :=
         pure ("H" ++ encodeBool (hyp0 && hypTags) ++ "|C" ++ encodeBool concl ++ "|P" ++ encodeList (extractRaw old).cpr ++ "|L" ++
               encodeList (extractRaw old).lic ++ "|W:" ++ encodeText out)
       | _ => pure "-"
+  | ["c09step", style, flags, tmpl, cpr, con, lic, bad, t] => do
+      -- hypotheses (Spec.stepGood, all decidable parts) and conclusion of C09_step_partial on this step
+      let render : RInfo → Text ←
+        if tmpl == "default" then pure defaultRender
+        else if tmpl.startsWith "rendered:" then do
+          let r ← decodeText (tmpl.drop 9).toString
+          pure (fun _ => r)
+        else none
+      let c := mkCfg (← findStyle style) flags render (← decodeList bad)
+      let f := flags.toList
+      let info : Extracted := ⟨← decodeList lic, ← decodeList cpr, ← decodeList con⟩
+      let o : Spec.Op := { c := c, replace := f.getD 3 '0' == '1', skipExisting := f.getD 4 '0' == '1', info := info }
+      let text ← decodeText t
+      match annotateText o.c o.replace o.skipExisting o.info text with
+      | .written out =>
+        let hypTags := match Spec.headerParts c o.replace info (Py.replace text ['\n'] ['\n']) with
+          | .ok p => Spec.tagsCompose p.1 out
+          | .error _ => false
+        let hyp := !c.merge && detectLineEnding text == ['\n'] && Spec.noIgnoreStart out && hypTags && Spec.headerHolds o text
+        let concl := Spec.declaresB c.normLic (extractRaw out) ((extractRaw text).cpr ++ info.cpr) ((extractRaw text).lic ++ info.lic)
+        pure ("H" ++ encodeBool hyp ++ "|C" ++ encodeBool concl)
+      | _ => pure "-"
   | _ => none
 
 end Ops
